@@ -1239,9 +1239,16 @@ class HSM2Dongle:
                 # Step 2.3.1. Send brother list metadata
                 brother_list = brothers[block_number-1]
                 brother_count = len(brother_list)
-                brother_count_bytes = brother_count.to_bytes(1,
-                                                             byteorder="big",
-                                                             signed=False)
+                try:
+                    brother_count_bytes = brother_count.to_bytes(1,
+                                                                 byteorder="big",
+                                                                 signed=False)
+                except OverflowError:
+                    self.logger.error(
+                        "%s: too many brothers (%d)",
+                        operation_name.capitalize(), brother_count
+                    )
+                    return (False, responses.ERROR_INVALID_BROTHERS)
                 data = bytes([ops.BROTHER_LIST_META]) + brother_count_bytes
                 try:
                     self.logger.info(
